@@ -3,6 +3,7 @@ mod proj;
 mod util;
 mod tables;
 mod c04;
+mod alias;
 mod seq;
 mod cli;
 mod textrec;
@@ -60,6 +61,8 @@ fn main() {
         ("replay", "text") => text::replay(),
         ("replay", "C19") => cli::replay(),
         ("replay", "C20") => seq::replay(),
+        ("replay", "C15") => alias::replay(),
+        ("record", "C15") => alias::record(&args[3], args.get(4).and_then(|s| s.parse().ok()).unwrap_or(1000)),
         ("replay", "pipeline") => pipeline::replay_schedules(),
         ("record", "C02") | ("record", "C06") | ("record", "C07") | ("record", "C08") | ("record", "C14") =>
             laws::record(id, &args[3], &args[4], args.get(5).and_then(|s| s.parse().ok()).unwrap_or(5)),
